@@ -14,6 +14,7 @@ import DateutilVerif.Proofs.RRuleStrMalformed
 import DateutilVerif.Proofs.RRuleStrOrder
 import DateutilVerif.Proofs.RRuleStrSet
 import DateutilVerif.Proofs.RRuleStrSpell
+import DateutilVerif.Proofs.RRuleStrOpts
 
 namespace C13
 open RRuleStr
@@ -244,6 +245,22 @@ theorem compatible_adds_dtstart (s : List Char) (ls : List Line) (hok : âˆ€ l âˆ
       .ok (.set rr ex (((rdateVals ls).map (splitOnChar ',')).flatten.map (fun d => (d, po))) (exdateVals po ls) (dtstartOf po ls)
             ((dtstartOf po ls).isSome || kw) cache)) :=
   parseLines_compatible_flag s ls hok kw cache
+
+/-! ## 8. option plumbing -/
+
+/-- `options_reach_every_path`: on ALL paths of `_parse_rfc` â€” the single-line fast path, several lines with one rule, and
+    the set path (forceset / compatible / two RRULEs / RDATE / EXRULE / EXDATE) â€” every date value in a successful result
+    (UNTIL of every rule and exrule, every RDATE and EXDATE value, DTSTART) was handed to `parser.parse` with exactly the
+    `ignoretz` / `tzinfos` the caller passed, and the rule or the set was built with exactly the caller's `cache`
+    (`Parsed.optsOK`).  The per-path statements are `buildRule_optsOK` (both single-rule paths) and `buildSet_optsOK`.
+    The model hands the options on at each call site separately, as the code does; the `rrs.parse` correspondence records
+    the keyword arguments of every `parser.parse`, `rrule()` and `rruleset()` call of the implementation against it. -/
+theorem options_reach_every_path {s : List Char} {o : Opts} {kw : Bool} {r : Parsed} (h : parseRfc s o kw = .ok r) :
+    r.optsOK o.po o.cache := parseRfc_optsOK h
+
+-- non-vacuity: the seeded-fault input, through the fast path, carries ignoretz to the UNTIL value
+example : parseRfc (lit "RRULE:FREQ=DAILY;UNTIL=19970905T090000Z") { ignoretz := true, cache := true } true =
+    .ok (.rule { freq := some 3, untilV := some (lit "19970905T090000Z", { ignoretz := true }) } none true) := by decide
 
 def sampleLines : List Line :=
   [.dtstart (lit "19970902T090000"), .rrule (lit "FREQ=DAILY;COUNT=3"), .rdate (lit "19970910T090000,19970911T090000"),
